@@ -456,120 +456,13 @@ func (r *allocRun) setPools(cl vw.ClusterSpec) (*vw.Violation, bool) {
 func (r *allocRun) judgeNew(i int, how string, ips []net.IP, pre vw.Holders, hadBefore bool, reqPool string) *vw.Violation {
 	s := r.svcs[i]
 	as := toAddrs(ips)
-	for _, a := range as {
-		if !a.IsValid() {
-			return vw.Violationf("recorded-invalid-address", "%s recorded %v for %s", how, ips, s.Key())
-		}
+	if v := vw.JudgeAssignment(r.cl, s, as, pre, how, hadBefore, reqPool, r.tr); v != nil {
+		return v
 	}
-	p := r.cl.PoolOf(as)
-	if p == nil {
-		return vw.Violationf("address-outside-pools", "%s recorded %v for %s: not all in one configured pool (or a .0/.255 of a pool that avoids them)", how, as, s.Key())
-	}
-	for j := range r.cl.Pools {
-		q := r.cl.Pools[j]
-		if q.Name == p.Name {
-			continue
+	if p := r.cl.PoolOf(as); p != nil {
+		if got := r.a.Pool(s.Key()); got != p.Name {
+			return vw.Violationf("pool-name-wrong", "%s: Allocator.Pool(%s) = %q but %v belongs to %q", how, s.Key(), got, as, p.Name)
 		}
-		for _, a := range as {
-			if q.Contains(a) {
-				return vw.Violationf("address-in-two-pools", "%s lies in pools %s and %s", a, p.Name, q.Name)
-			}
-		}
-	}
-	if got := r.a.Pool(s.Key()); got != p.Name {
-		return vw.Violationf("pool-name-wrong", "%s: Allocator.Pool(%s) = %q but %v belongs to %q", how, s.Key(), got, as, p.Name)
-	}
-	if !r.cl.Admits(*p, s) {
-		sig := "pool-does-not-admit"
-		if r.cl.NsSelMatchesNothing(*p) {
-			sig = "pool-does-not-admit:namespace-selectors-match-no-namespace"
-		}
-		return vw.Violationf("pool-does-not-admit-service", "%s gave %s (ns %s labels %v) %v from pool %s whose serviceAllocation %+v does not admit it", how, s.Key(), s.NS, s.Labels, as, p.Name, *p.Alloc).WithSig(sig)
-	}
-	if len(as) > 2 || (len(as) == 2 && as[0].Is4() == as[1].Is4()) {
-		return vw.Violationf("family-pair", "%s recorded %v for %s", how, as, s.Key())
-	}
-	if hadBefore || how == "Assign" || how == "AddFamily" {
-		return nil // keeps / explicit: family & policy rules below are for fresh automatic choices
-	}
-	n := s.Need()
-	has4, has6 := false, false
-	for _, a := range as {
-		if a.Is4() {
-			has4 = true
-		} else {
-			has6 = true
-		}
-	}
-	switch {
-	case n.Dual() && !n.Prefer:
-		if !(has4 && has6) {
-			return vw.Violationf("family-require-dual", "%s gave RequireDualStack service %s only %v", how, s.Key(), as)
-		}
-	case n.Dual():
-		if !has4 && !has6 {
-			return vw.Violationf("family-none", "%s gave %s nothing", how, s.Key())
-		}
-	case n.V4:
-		if !has4 || has6 {
-			return vw.Violationf("family-mismatch", "%s gave IPv4 service %s %v", how, s.Key(), as)
-		}
-	case n.V6:
-		if !has6 || has4 {
-			return vw.Violationf("family-mismatch", "%s gave IPv6 service %s %v", how, s.Key(), as)
-		}
-	}
-	if how == "AllocateFromPool" {
-		if p.Name != reqPool {
-			return vw.Violationf("wrong-pool", "AllocateFromPool(%s) for %s gave %v of pool %s", reqPool, s.Key(), as, p.Name)
-		}
-		return nil
-	}
-	// automatic allocation
-	if !p.Auto() {
-		return vw.Violationf("auto-assign-disabled-pool-used", "Allocate gave %s %v from pool %s which has autoAssign=false", s.Key(), as, p.Name)
-	}
-	cand := vw.HolderOf(s, nil, "")
-	var pinned []vw.PoolSpec
-	for _, q := range r.cl.Pools {
-		if q.Pinned() && q.Auto() && r.cl.Admits(q, s) && !r.cl.NsSelMatchesNothing(q) {
-			pinned = append(pinned, q)
-		}
-	}
-	if len(pinned) >= 2 {
-		r.tr.Class("several-pinned-candidates")
-		r.tr.NonTrivial()
-	}
-	gotBoth := has4 && has6
-	for _, q := range pinned {
-		if q.Name == p.Name {
-			continue
-		}
-		full, partial := pre.Satisfiable(q, cand, n)
-		if !p.Pinned() {
-			if full || partial {
-				return vw.Violationf("unpinned-before-pinned", "Allocate gave %s %v from unpinned pool %s although pinned pool %s (priority %d) could serve it", s.Key(), as, p.Name, q.Name, q.Alloc.Priority)
-			}
-			continue
-		}
-		better := q.Rank() < p.Rank()
-		if n.Dual() && n.Prefer {
-			if !gotBoth && full {
-				return vw.Violationf("prefer-dual-missed-full-pool", "PreferDualStack service %s got only %v from %s although pinned pool %s could give both families", s.Key(), as, p.Name, q.Name)
-			}
-			if gotBoth && better && full {
-				return vw.Violationf("priority-ignored", "Allocate gave %s %v from pool %s (priority %d) although pool %s (priority %d) could give both families", s.Key(), as, p.Name, p.Alloc.Priority, q.Name, q.Alloc.Priority)
-			}
-			continue
-		}
-		if better && full {
-			return vw.Violationf("priority-ignored", "Allocate gave %s %v from pool %s (priority %d) although pool %s (priority %d) could serve it", s.Key(), as, p.Name, p.Alloc.Priority, q.Name, q.Alloc.Priority)
-		}
-	}
-	if p.Pinned() {
-		r.tr.Class("allocated-from-pinned")
-	} else {
-		r.tr.Class("allocated-from-unpinned")
 	}
 	return nil
 }
